@@ -89,7 +89,10 @@ def instStep (st : St) (two : Bool) (args : List String) : St × String :=
     -- spec: once the wallet is gone (no keystore, no status) nothing may mention it
     if !l.wallets.contains w && (AMap.get l.store.status w).isNone then (st, m ++ "\t-") else (st, m)
   | ["dangling"] =>
-    -- debit records whose credit is missing / credits flagged spent whose debit is missing
+    -- debit records whose credit is missing / credits flagged spent whose debit is missing.
+    -- spec: none, at any moment (in the books of a chain every debit has its credit and every spent credit its
+    -- debit: MW.Lemmas.RemoveBooks.debit_credit / spKey_debit; a removal step deletes a credit WITH its debit and,
+    -- D45, keeps the tx record through which Rollback reaches what is left)
     let s := l.store
     let ds := s.debits.filterMap (fun e =>
       if (AMap.get s.credits e.2.2).isNone then some s!"d:{e.1.tx}:{e.1.idx}" else none)
@@ -99,7 +102,7 @@ def instStep (st : St) (two : Bool) (args : List String) : St × String :=
         | some dk => if (AMap.get s.debits dk).isNone then some s!"c:{e.1.tx}:{e.1.idx}" else none
         | none => some s!"c:{e.1.tx}:{e.1.idx}"
       else none)
-    (st, Led.joinSorted (ds ++ cs))
+    (st, Led.joinSorted (ds ++ cs) ++ "\t-")
   | ["pendmention", w] =>
     if (AMap.get st.known w).isNone then (st, "bad-op") else
     let n := pendMention l (addrsOf st w)
